@@ -528,7 +528,9 @@ class Builder:
                 return Decimal('0.5')
             if which in ('two', 'b'):
                 return Decimal('0.25')
-            return [Decimal('1'), Decimal('-12345.678'), Decimal('0.000001'), Decimal('100')][variant % 4]
+            # (the last three: values python holds with an exponent - str() would write them in scientific notation)
+            return [Decimal('1'), Decimal('-12345.678'), Decimal('0.000001'), Decimal('100'), Decimal('1E+2'),
+                    Decimal('1.2E+3'), Decimal('5E-7')][variant % 7]
         if st == 'ts':
             return {'one': 1.5, 'a': 1.5, 'two': 2.0, 'b': 2.0}.get(which, [FIXED_NOW - 1000, 0.001, 0][variant % 3])
         if st == 'dur':
